@@ -419,6 +419,8 @@ def replay_callback(a):
     if srt != ("bv", et[1]) or rt[0] != et[0]:
         return True, f"{cb}: {desc} -> {r}: typed {tname(rt)}, C11 result type {tname(et)}"
     got = _concrete_den(r, vals)
+    if got is None:
+        return "inconclusive", f"{cb}: {desc} -> {r}: the IR value could not be evaluated concretely"
     if got == want and not faithful(*kinds_used):
         return "inconclusive", f"{cb}: {desc} with stand-in variables for {kinds_used}: agrees with C11"
     return got != want, f"{cb}: {desc} -> {r}: IR value {got:#x}, C11 value {want:#x}"
